@@ -4,9 +4,26 @@ package server
 
 import (
 	"context"
+	"runtime"
+	"time"
 
 	"go.lsp.dev/protocol"
 )
+
+// zzMuted (native runs only): sends a notification with the client detached, so that the
+// background goroutine it spawns returns at once (publishDiagnostics and refreshConfiguration
+// start with `if s.client == nil { return }`), and waits until those goroutines are gone
+// before the client is attached again. The harness then runs the analysis itself, at the point
+// the schedule says.
+func zzMuted(s *Server, cl protocol.Client, f func()) {
+	base := runtime.NumGoroutine()
+	s.client = nil
+	f()
+	for i := 0; i < 2000 && runtime.NumGoroutine() > base; i++ {
+		time.Sleep(time.Millisecond)
+	}
+	s.client = cl
+}
 
 // zzClient is the harness's LSP client: it records publications and answers
 // workspace/configuration with a harness-chosen value.
